@@ -75,6 +75,7 @@ def summarise(world, outcome):
                                "phase": ex[-1].get("phase") if ex else None,
                                "tb": ex[-1]["tb"][-1200:] if ex else ""})
     res["finished"] = last == 0
+    res["wall_s"] = round(outcome.get("wall_s", 0.0), 2)
     return res
 
 
